@@ -16,7 +16,7 @@ class DomainMappingEval(EvalContract):
     qual = 'symbolic:DomainMapping._evaluate__'
     uses_position = True
     cls = 'DomainMapping'
-    props = ('C01', 'C03', 'C16', 'C19', 'C02')
+    props = ('C01', 'C02', 'C03', 'C15', 'C16', 'C19')
 
     def shape_facts(self, n):
         c = Z.f_child(n)
@@ -48,7 +48,7 @@ class ComparatorEval(EvalContract):
     position, so every binding of them is needed whatever its truthiness (C19)."""
     qual = 'symbolic:Comparator._evaluate__'
     cls = 'Comparator'
-    props = ('C01', 'C02', 'C19', 'C18')
+    props = ('C01', 'C02', 'C15', 'C19')
     inline = ('get_first_second_operands', 'apply_operation', 'update_cache')
 
     def children(self, n):
